@@ -5,12 +5,13 @@
 use std::collections::HashMap;
 use std::time::{Duration, Instant};
 use stun_agent::{RttConfig, StunAttributes, StunClient, StunClientEvent, StunClienteBuilder, StunTransactionError, TransportReliability};
+use stun_rs::{MessageClass, MessageEncoderBuilder, StunMessageBuilder};
 use stun_rs::methods::BINDING;
 use stun_rs::TransactionId;
 
 fn ms(v: u64) -> Duration { Duration::from_millis(v) }
 
-fn run(starts: &[u64], period: u64) -> Result<(), String> {
+fn run(starts: &[u64], period: u64, answer: Option<(usize, u64)>) -> Result<(), String> {
     let mut client: StunClient = StunClienteBuilder::new(TransportReliability::Unreliable(RttConfig::default())).build().map_err(|e| format!("{:?}", e))?;
     let t0 = Instant::now();
     let mut by_bytes: HashMap<Vec<u8>, usize> = HashMap::new();
@@ -18,11 +19,25 @@ fn run(starts: &[u64], period: u64) -> Result<(), String> {
     let mut resent: Vec<Vec<u64>> = vec![Vec::new(); starts.len()];
     let mut failed: Vec<Vec<u64>> = vec![Vec::new(); starts.len()];
     let mut next_start = 0usize;
+    let mut answered = false;
+    let mut answered_at = 0u64;
     let mut tick = 0u64;
     // first poll tick at or after t
     let at = |t: u64| -> u64 { ((t + period - 1) / period) * period };
     while tick <= 47_000 {
         let now = t0 + ms(tick);
+        if let Some((k, at_ms)) = answer {
+            // the response to request k arrives at the first poll tick at or after `at_ms`, before the timer call of that tick
+            if !answered && tick >= at_ms && k < ids.len() {
+                let msg = StunMessageBuilder::new(BINDING, MessageClass::SuccessResponse).with_transaction_id(ids[k]).build();
+                let mut buf = vec![0u8; 128];
+                let n = MessageEncoderBuilder::default().build().encode(&mut buf, &msg).map_err(|e| format!("{:?}", e))?;
+                client.on_buffer_recv(&buf[..n], now).map_err(|e| format!("response to request {} refused: {:?}", k, e))?;
+                let _ = client.events();
+                answered = true;
+                answered_at = tick;
+            }
+        }
         client.on_timeout(now);
         for e in client.events() {
             match e {
@@ -51,6 +66,17 @@ fn run(starts: &[u64], period: u64) -> Result<(), String> {
         tick += period;
     }
     for k in 0..starts.len() {
+        if let Some((ak, _)) = answer {
+            if ak == k && answered {
+                // the answered request: its schedule up to the answer, then nothing (no retransmission, no failure)
+                let s0 = at(starts[k]);
+                let want: Vec<u64> = [500u64, 1500, 3500, 7500, 15500, 31500].iter().map(|o| at(s0 + o)).filter(|t| *t < answered_at).map(|t| t - starts[k]).collect();
+                if resent[k] != want || !failed[k].is_empty() {
+                    return Err(format!("polling every {} ms: request {} was answered at {} ms but was retransmitted at offsets {:?} (expected {:?}) and failed at {:?}", period, k, answered_at, resent[k], want, failed[k]));
+                }
+                continue;
+            }
+        }
         // a request handed over at poll tick s0 is due at s0 + offset and served by the first poll at or after that time
         let s0 = at(starts[k]);
         let want: Vec<u64> = [500u64, 1500, 3500, 7500, 15500, 31500].iter().map(|o| at(s0 + o) - starts[k]).collect();
@@ -76,10 +102,19 @@ fn main() {
     for a in offs { cases.push(vec![a]); for b in offs { if b >= a { cases.push(vec![a, b]); for c in offs { if c >= b { cases.push(vec![a, b, c]); } } } } }
     let mut bad = 0;
     for c in &cases {
-        if let Err(e) = run(c, 500) { println!("WITNESS: starts {:?} ms: {}", c, e); bad += 1; if bad > 3 { break; } }
+        // one of several requests is answered (after it has been retransmitted, so no RTT sample): the others keep their schedule
+        if c.len() >= 2 {
+            for k in [0usize, c.len() - 1] {
+                // (only a request already retransmitted by then - started at or before 1000 ms - so that its answer is no RTT sample)
+                if c[k] > 1000 { continue; }
+                if let Err(e) = run(c, 500, Some((k, 1700))) { println!("WITNESS: starts {:?} ms, request {} answered at 1700 ms: {}", c, k, e); bad += 1; }
+            }
+            if bad > 3 { break; }
+        }
+        if let Err(e) = run(c, 500, None) { println!("WITNESS: starts {:?} ms: {}", c, e); bad += 1; if bad > 3 { break; } }
         // late timer calls: deadlines are absolute (start + schedule), a late call does not shift the later ones
         for period in [700u64, 1100] {
-            if let Err(e) = run(c, period) { println!("WITNESS: starts {:?} ms: {}", c, e); bad += 1; if bad > 3 { break; } }
+            if let Err(e) = run(c, period, None) { println!("WITNESS: starts {:?} ms: {}", c, e); bad += 1; if bad > 3 { break; } }
         }
     }
     if bad == 0 { println!("ok: {} start patterns follow the RFC 8489 schedule", cases.len()); } else { std::process::exit(1); }
